@@ -25,7 +25,7 @@ def subdirs (t : Tree) (root : Str) : List Str :=
 
 def allDirs (t : Tree) : List Str := t.searchDirs.flatMap (subdirs t)
 
-def supportedExt : List Str := ["build","container","image","kube","network","pod","volume"].map s
+def supportedExt : List Str := Gen.SUPPORTED_EXTENSIONS
 
 inductive Loaded | unit (q : QUnit) | loadErr (path : Str)
 
